@@ -158,7 +158,10 @@ def run_case(case):
     """Replay: a (value key, formatter) disagreement is re-established by running the two named processes again."""
     if "pair" not in case:
         r = run_task(case)
-        return r["violations"]
+        if r["violations"]:
+            return r["violations"]
+        # verdicts about one process alone (a site whose snapshot() stayed empty) are made by the comparison step
+        return [x for x in _compare([(case, r)], _sites(case["tier"])) if x["case"] == case]
     a = run_task(dict(case["pair"][0], only_key=case["key"]))
     b = run_task(dict(case["pair"][1], only_key=case["key"]))
     sites = [s_ for s_ in _sites(case["pair"][0]["tier"]) if s_[0] == case["key"]]
